@@ -32,6 +32,16 @@ impl P {
         }
     }
     pub fn size(&self) -> usize { 1 + self.children().iter().map(|c| c.size()).sum::<usize>() }
+    /// The same policy with every key label mapped by `f`.
+    pub fn map_keys(&self, f: &dyn Fn(&str) -> String) -> P {
+        match self {
+            P::Key(k) => P::Key(f(k)),
+            P::And(v) => P::And(v.iter().map(|c| c.map_keys(f)).collect()),
+            P::Or(v) => P::Or(v.iter().map(|(w, c)| (*w, c.map_keys(f))).collect()),
+            P::Thresh(k, v) => P::Thresh(*k, v.iter().map(|c| c.map_keys(f)).collect()),
+            o => o.clone(),
+        }
+    }
     pub fn n_leaves(&self) -> usize {
         let c = self.children();
         if c.is_empty() {
